@@ -64,75 +64,94 @@ Definition new_buffer (w : cworld) : cworld * Z :=
         (fun b j => if b =? nb then (if j =? C - 1 then NIL else j + 1) else nx w b j)
         (nb + 1) (returned w) (cp0 w) (cp1 w), nb).
 
+(* small steps on one pool record *)
+Definition set_lists (w : cworld) (p : bool) (lf lr : list Z) : cworld :=
+  let x := getp w p in setp w p (mkCP lf lr (cache x) (acount x) (live x)).
+Definition set_cache (w : cworld) (p : bool) (c : list blk) : cworld :=
+  let x := getp w p in setp w p (mkCP (lfull x) (lfree x) c (acount x) (live x)).
+Definition add_live (w : cworld) (p : bool) (bk : blk) : cworld :=           (* ++mData.allocCount + ghost *)
+  let x := getp w p in setp w p (mkCP (lfull x) (lfree x) (cache x) (acount x + 1) (bk :: live x)).
+Definition remove_live (w : cworld) (p : bool) (bk : blk) : cworld :=        (* --mData.allocCount + ghost *)
+  let x := getp w p in setp w p (mkCP (lfull x) (lfree x) (cache x) (acount x - 1) (removeb bk (live x))).
+
+(* pvNewBuffer() linked in as the LAST buffer of the list: lines 521-522 (empty list) and 527-529 (after the head, which has
+   no successor there) *)
+Definition attach_new (w : cworld) (p : bool) : cworld :=
+  let '(w', nb) := new_buffer w in
+  set_lists w' p (lfull (getp w' p)) (lfree (getp w' p) ++ [nb]).
+
+(* pvNewBlock 531-537: take the first free block of the head; a head without free blocks leaves the free part *)
+Definition take (w : cworld) (p : bool) : cworld * blk :=
+  let x := getp w p in
+  let head := hd0 (lfree x) in
+  let idx := fb w head in                                                             (* 531 *)
+  let bC := fc w head - 1 in                                                          (* 533 *)
+  let w := set_bytes w head (nx w head idx) bC in                                     (* 532, 534 *)
+  let w := if bC =? 0 then set_lists w p (lfull x ++ [head]) (tl0 (lfree x)) else w in   (* 535-536: mFreeBufferHead = nextBuffer *)
+  (w, (head, idx)).
+
 (* pvNewBlock 519-538 *)
 Definition pvNewBlock (w : cworld) (p : bool) : cworld * blk :=
+  let w := match lfree (getp w p) with [] => attach_new w p | _ => w end in           (* 521-522 *)
   let x := getp w p in
-  let '(w, fl) := match lfree x with
-                  | [] => let '(w', nb) := new_buffer w in (w', [nb])                 (* 521-522 *)
-                  | l => (w, l) end in
-  let head := hd0 fl in
-  let bF := fb w head in let bC := fc w head in                                       (* 523 *)
-  let nextBuffer := hd0 (tl0 fl) in                                                   (* 524 *)
-  let '(w, fl, nextBuffer) :=
-    if (bC =? 1) && (nextBuffer =? 0)                                                 (* 525 *)
-    then let '(w', nb) := new_buffer w in (w', fl ++ [nb], nb)                        (* 527-529 *)
-    else (w, fl, nextBuffer) in
-  let idx := bF in                                                                    (* 531 *)
-  let bF := nx w head idx in                                                          (* 532 *)
-  let bC := bC - 1 in                                                                 (* 533 *)
-  let w := set_bytes w head bF bC in                                                  (* 534 *)
-  let x' := if bC =? 0 then mkCP (lfull x ++ [head]) (tl0 fl) (cache x) (acount x) (live x)   (* 535-536 *)
-            else mkCP (lfull x) fl (cache x) (acount x) (live x) in
-  (setp w p x', (head, idx)).
+  let head := hd0 (lfree x) in
+  let nextBuffer := hd0 (tl0 (lfree x)) in                                            (* 523-524 *)
+  let w := if (fc w head =? 1) && (nextBuffer =? 0) then attach_new w p else w in     (* 525-530 *)
+  take w p.
+
+(* pvDeleteBlock 549-553: push the block on its buffer's chain *)
+Definition push (w : cworld) (bk : blk) : cworld :=
+  let b := fst bk in let j := snd bk in
+  set_bytes (set_nx w b j (fb w b)) b j (fc w b + 1).
+(* 555-556 pvMoveBufferToHead: the (so far full) buffer becomes the head, directly in front of the old head *)
+Definition move_head (w : cworld) (p : bool) (b : Z) : cworld :=
+  let x := getp w p in set_lists w p (removez b (lfull x)) (b :: lfree x).
+(* 565+568: the head is completely free and has a successor: the successor becomes the head, the buffer is deleted *)
+Definition drop_head (w : cworld) (p : bool) (b : Z) : cworld :=
+  let x := getp w p in add_returned (set_bytes (set_lists w p (lfull x) (tl0 (lfree x))) b 0 0) b.
+(* 568: a completely free buffer other than the head is deleted *)
+Definition drop_mid (w : cworld) (p : bool) (b : Z) : cworld :=
+  let x := getp w p in add_returned (set_bytes (set_lists w p (removez b (lfull x)) (removez b (lfree x))) b 0 0) b.
 
 (* pvDeleteBlock(block, buffer, blockIndex) 547-570 (buffer and index come from pvGetBlockIndex, C09_..._roundtrip) *)
 Definition pvDeleteBlock (w : cworld) (p : bool) (bk : blk) : cworld :=
-  let b := fst bk in let j := snd bk in
-  let bF := fb w b in let bC := fc w b in                                             (* 549 *)
-  let w := set_nx w b j bF in                                                         (* 550 *)
-  let bC := bC + 1 in                                                                 (* 551-552 *)
-  let w := set_bytes w b j bC in                                                      (* 553 *)
-  let x := getp w p in
-  let x := if bC =? 1                                                                 (* 555-556 pvMoveBufferToHead *)
-           then mkCP (removez b (lfull x)) (b :: lfree x) (cache x) (acount x) (live x) else x in
-  if bC =? C then                                                                     (* 557 *)
-    let head := hd0 (lfree x) in
-    if b =? head then                                                                 (* 560 *)
-      let nextBuffer := hd0 (tl0 (lfree x)) in                                        (* 562 *)
-      if nextBuffer =? 0 then setp w p x                                              (* 563: the only buffer with free blocks is kept *)
-      else add_returned (set_bytes (setp w p (mkCP (lfull x) (tl0 (lfree x)) (cache x) (acount x) (live x))) b 0 0) b   (* 565, 568 *)
-    else add_returned (set_bytes (setp w p (mkCP (removez b (lfull x)) (removez b (lfree x)) (cache x) (acount x) (live x))) b 0 0) b   (* 568 *)
-  else setp w p x.
+  let b := fst bk in
+  let w := push w bk in                                                               (* 549-553 *)
+  let w := if fc w b =? 1 then move_head w p b else w in                              (* 555-556 *)
+  if fc w b =? C then                                                                 (* 557 *)
+    let x := getp w p in
+    if b =? hd0 (lfree x) then                                                        (* 560 *)
+      if hd0 (tl0 (lfree x)) =? 0 then w                                              (* 562-563: the only buffer with free blocks is kept *)
+      else drop_head w p b                                                            (* 565, 568 *)
+    else drop_mid w p b                                                               (* 568 *)
+  else w.
 
-(* pvFlushDeallocate 459-468 *)
-Definition flush (w : cworld) (p : bool) : cworld :=
-  let x := getp w p in
-  let w := foldl (fun w bk => pvDeleteBlock w p bk) (cache x) w in
-  let x := getp w p in
-  setp w p (mkCP (lfull x) (lfree x) [] (acount x) (live x)).
+(* pvFlushDeallocate 459-468: mCacheHead advances block by block (mCachedCount is reset at the end) *)
+Fixpoint flush_loop (l : list blk) (w : cworld) (p : bool) : cworld :=
+  match l with
+  | [] => w
+  | bk :: rest => flush_loop rest (pvDeleteBlock (set_cache w p rest) p bk) p         (* 463-465 *)
+  end.
+Definition flush (w : cworld) (p : bool) : cworld := flush_loop (cache (getp w p)) w p.
 
 (* Allocate 285-306 *)
 Definition Allocate (w : cworld) (p : bool) : cworld * blk :=
   let x := getp w p in
   let '(w, bk) :=
     match cache x with
-    | bk :: rest => if uc then (setp w p (mkCP (lfull x) (lfree x) rest (acount x) (live x)), bk)     (* 289-294 *)
+    | bk :: rest => if uc then (set_cache w p rest, bk)                               (* 289-294 *)
                     else pvNewBlock w p
-    | [] => pvNewBlock w p                                                                              (* 297-298 *)
+    | [] => pvNewBlock w p                                                            (* 297-298 *)
     end in
-  let x := getp w p in
-  (setp w p (mkCP (lfull x) (lfree x) (cache x) (acount x + 1) (bk :: live x)), bk).                    (* 304 *)
+  (add_live w p bk, bk).                                                              (* 304 *)
 
-(* Deallocate 308-325 *)
+(* Deallocate 308-325 (the counter / ghost update of line 324 is done first; it is independent of the rest) *)
 Definition Deallocate (w : cworld) (p : bool) (bk : blk) : cworld :=
-  let w :=
-    if uc then
-      let w := if CF <=? lenz (cache (getp w p)) then flush w p else w in                               (* 314-315 *)
-      let x := getp w p in
-      setp w p (mkCP (lfull x) (lfree x) (bk :: cache x) (acount x) (live x))                           (* 316-318 *)
-    else pvDeleteBlock w p bk in                                                                        (* 322 *)
-  let x := getp w p in
-  setp w p (mkCP (lfull x) (lfree x) (cache x) (acount x - 1) (removeb bk (live x))).                   (* 324 *)
+  let w := remove_live w p bk in                                                      (* 324 *)
+  if uc then
+    let w := if CF <=? lenz (cache (getp w p)) then flush w p else w in               (* 314-315 *)
+    set_cache w p (bk :: cache (getp w p))                                            (* 316-318 *)
+  else pvDeleteBlock w p bk.                                                          (* 322 *)
 
 (* pvDeleteBuffer for every buffer of a list *)
 Definition return_all (w : cworld) (l : list Z) : cworld := foldl (fun w b => add_returned (set_bytes w b 0 0) b) l w.
@@ -159,9 +178,7 @@ Definition pvDeleteBlocks (f : blk -> bool) (w : cworld) (p : bool) (b : Z) : cw
   foldl (fun w i =>
            if memz i freeBits then w                                                                    (* 697-698 *)
            else if f (b, i) then                                                                        (* 701 *)
-             let w := pvDeleteBlock w p (b, i) in                                                       (* 703 *)
-             let x := getp w p in
-             setp w p (mkCP (lfull x) (lfree x) (cache x) (acount x - 1) (removeb (b, i) (live x)))     (* 704 *)
+             pvDeleteBlock (remove_live w p (b, i)) p (b, i)                                            (* 703-704 *)
            else w)
         (upto (Z.to_nat C) 0) w.
 
